@@ -28,6 +28,8 @@ type ctx struct {
 	usesIx bool
 	usesBits bool
 	strExt []*T
+	twins []*T
+	twinSeen map[string]bool
 	strExtSeen map[string]bool
 	wrap64 bool // int mode: 64-bit arithmetic wraps (exact) instead of producing overflow obligations
 	facts []symFact // facts about heap symbols (value ranges), rendered when the symbol is used
@@ -969,6 +971,33 @@ func (c *ctx) ix(off, k *T) *T {
 		return app("bvadd", c.intSort(), off, k)
 	}
 	c.usesIx = true
+	// a view s[c:...] indexes from (+ off(s) c): for ground accesses also put the twin term ix(off(s), c+k)
+	// into the query (equal by the ix axiom), so that facts stated over either view can be triggered
+	if u := off.un(); u.op == "+" && len(u.args) == 2 {
+		if _, isNum := numeralValue(u.args[1]); isNum {
+			at := map[string]bool{}
+			collectAtoms(k, at)
+			collectAtoms(u.args[0], at)
+			ground := true
+			for n := range at {
+				if strings.Contains(n, "!q") || strings.HasPrefix(n, "k!") || strings.HasPrefix(n, "p!") || strings.HasPrefix(n, "r!") || strings.HasPrefix(n, "i!") {
+					ground = false
+				}
+			}
+			if ground {
+				a := app("ix", "Int", off, k)
+				b := app("ix", "Int", u.args[0], c.arith(token.ADD, u.args[1], k, types.Typ[types.Int], nil))
+				key := a.String()
+				if c.twinSeen == nil {
+					c.twinSeen = map[string]bool{}
+				}
+				if !c.twinSeen[key] && len(c.twins) < 400 {
+					c.twinSeen[key] = true
+					c.twins = append(c.twins, mkEq(a, b))
+				}
+			}
+		}
+	}
 	return app("ix", "Int", off, k)
 }
 
